@@ -628,6 +628,18 @@ func (e *SpecEnv) call(x *ast.CallExpr) T {
 		return e.cur.traceN
 	case "traceAt":
 		return Select(e.cur.trace, e.wantInt(x.Args[0]), "Ev")
+	case "putstore":
+		// putstore(state, "store", storeTerm): replace one whole module store of a State term
+		stt := e.tr(x.Args[0])
+		if stt.Sort != SState {
+			sfail("putstore: first argument must be a State, got %s", stt.Sort)
+		}
+		sid := e.storeArg(x.Args[1])
+		v := e.tr(x.Args[2])
+		if v.Sort != SStore {
+			sfail("putstore: third argument must be a store, got %s", v.Sort)
+		}
+		return Store(stt, sid, v)
 	case "sput":
 		// sput(store, key, val): functional update of a module store term (Array Bytes Bytes)
 		stt := e.tr(x.Args[0])
